@@ -37,3 +37,22 @@ CHECKS["C02"] = dict(
     text="Proved: inspect_origin reports exactly the channel the run-time resolution uses (config > live context key > default > required) with the producer index; _is_compatible = the run-time issubclass gate (TypeError-safe); _validate_data_flow_compatibility flags exactly the nodes whose arriving data type (output of the nearest preceding typed node, across any number of context-only nodes) is incompatible - for node lists of any length. build_pipeline_inspection (key-flow bookkeeping) is NOT proved: a bounded tier inspects, validates and executes generated pipelines with exactly the reported required keys (ordinary and falsy values) and checks flow soundness and the per-node created/suppressed facts.",
     note="The bounded part is exploration. Node inspection objects are assumed pairwise distinct with their own error lists.",
     ref="DESIGN.md section 7 (C02)")
+FIX_COMMITS += ["e5a5f58", "b7bb082", "c9f8bf2"]
+CHECKS["C04"] = dict(
+    level="proof",
+    technique="contract-based deductive verification: frame (no ambient reads) and order-oracle-freedom obligations on the identity hashing functions, contracts for _canonical_node and compute_upstream_map; metamorphic identity tier bounded",
+    text="Proved by symbolic execution of the real functions on arbitrary inputs: _canonical_node (exact field set, records declaration index/subindex and the processor reference, input untouched), compute_pipeline_id / _sha256_json / compute_pipeline_config_id / compute_pipeline_semantic_id read no clock/random/pid/cwd and their result term contains no mapping-order or set-order oracle (json.dumps is order-free only with sort_keys=True), compute_upstream_map = predecessor along canonical edges. NOT proved: YAML loading, preprocess/resolve/descriptor functions, sweep metadata, the inspect = run identity; those are exercised by a bounded metamorphic tier (key-order shuffles at all depths, 3 YAML styles, +/* operand rewrites, same-object re-run, history, fresh processes with other hash seeds).",
+    note="json/sha256/uuid5 are uninterpreted pure functions; compute_pipeline_semantic_id is executed for node lists of length 0..2 (its comprehension allocates per element). Bounded part is exploration.",
+    ref="DESIGN.md section 7 (C04)")
+CHECKS["C05"] = dict(
+    level="proof",
+    technique="contract-based deductive verification: relational field-determination obligations (equal hashed pre-images => equal identity-bearing fields) and a loop invariant on build_canonical_spec giving pairwise distinct node uuids; mutation tier bounded",
+    text="Proved with hashes/JSON assumed injective: the structure hashed by compute_pipeline_semantic_id determines every node's uuid and, for sweep nodes, its node semantic id; compute_pipeline_config_id hashes the sorted set of (uuid, semantic id) pairs; build_canonical_spec gives node j a canonical mapping with declaration_index j whose JSON is the uuid5 pre-image, so node uuids of one pipeline are pairwise distinct for any number of (even identical) nodes. NOT proved: that each documented sweep ingredient reaches the node semantic id (metadata construction is reflection-heavy): bounded single-point mutation tier.",
+    note="Collision freedom of sha256/uuid5/canonical JSON assumed. preprocess_node_config/resolve_parameters/descriptor_to_json abstract. Bounded part is exploration.",
+    ref="DESIGN.md section 7 (C05)")
+CHECKS["C12"] = dict(
+    level="proof",
+    technique="contract-based deductive verification of the operand-flattening function by structural induction (its contract is the hypothesis at the recursive calls); normal-form/value relation by exhaustive bounded enumeration",
+    text="Proved for arbitrary finite expression trees and any operator class: collect(term) appends exactly Flat(op, term) - the in-order maximal non-op sub-terms of a chain of the same operator - keeps earlier terms and changes nothing else. NOT proved: norm's sort-by-dump/rebuild and recursive in-place rewriting, nor the composition 'equal signature => equal value'; these are checked by exhaustive enumeration of small expressions (grouping by signature, exact integer evaluation), AC rearrangements and single-point mutations. The Lean lemmas planned in DESIGN.md were not written.",
+    note="Bounded part is exploration. Expression trees assumed acyclic (parser output).",
+    ref="DESIGN.md section 7 (C12)")
